@@ -11,7 +11,7 @@
     [save] returns a flag: [false] when a look inside a writer raised (BSP.save raises, no file is written). *)
 From Coq Require Import List Arith.
 From Coq Require Import NArith.
-From SV Require Import SM.LazyLumps SM.LazyLumpsProofs SM.LazyLumpsAppend Fmt.BspContainer Fmt.BspContainerProofs.
+From SV Require Import SM.LazyLumps SM.LazyLumpsProofs SM.LazyLumpsAppend SM.LazyLumpsCond SM.LazyLumpsSide SM.LazyLumpsMut Fmt.BspContainer Fmt.BspContainerProofs.
 From SV Require Bin.FindInsert.
 Import ListNotations.
 
@@ -177,6 +177,208 @@ Theorem c10_snapshot_save_refuted :
   fst r = true /\ raw (snd r) 1 = 0 /\ cache (snd r) 1 = Some [2] /\
   raw (snd (save nat (list nat) 0 ex_rd ex_wr g_wdep std_shape (run nat (list nat) 0 ex_rd g_wdep std_shape [0] ex_s0))) 1 = 2.
 Proof. exact snapshot_save_refuted. Qed.
+
+(** ---------------------------------------------------------------------------------------------------------
+    Conditional stores (round 3, fault class of seeded c10_4).  A writer whose store of an owned lump may be skipped for
+    some values is [wrc : nat -> P -> list (option D)] ([None] = skipped: the lump keeps what it holds); [save_c] is
+    BSP.save with such writers (SM/LazyLumpsCond.v).  Instance obligation of the check: today's writers store no
+    lump that a view clears conditionally, so [save] is the model of today's BSP.save. *)
+Section C10Cond.
+  Variables D P : Type.
+  Variable empty : D.
+  Variable rd : nat -> list D -> option P.
+  Variable wrc : nat -> P -> list (option D).
+  Variable g : graph.
+  Variable sh : shape.
+
+  (** A skipped store of a lump that a view clears is a store of b'': for every order-consistent graph, every shape and
+      every access sequence, saving with skipped stores is exactly saving with the writer that stores b'' instead
+      (every lump of a cached view is b'' when its writer runs, and looks only ever empty lumps). *)
+  Theorem c10_skipped_store_of_cleared_lump_stores_empty : order_consistent g = true ->
+    forall (s0 : state D P) accs, fresh D P s0 ->
+    save_c D P empty rd wrc g sh (run D P empty rd g sh accs s0)
+    = save D P empty rd (wr_fill D P empty wrc) g sh (run D P empty rd g sh accs s0).
+  Proof. exact (save_c_eq_save D P empty rd wrc g sh). Qed.
+
+  (** Hence saving with conditional stores is lossless exactly when the writer that stores b'' for a skipped store inverts
+      the reader: the reader must make of b'' the very value for which the store is skipped. *)
+  Theorem c10_conditional_store_lossless : order_consistent g = true -> shape_ok sh = true ->
+    forall (s0 : state D P) accs, fresh D P s0 ->
+    wr_len_ok D P rd (wr_fill D P empty wrc) g s0 -> codec_ok D P rd (wr_fill D P empty wrc) g s0 ->
+    let r := save_c D P empty rd wrc g sh (run D P empty rd g sh accs s0) in
+    (fst r = true -> fresh D P (snd r) /\ same_content D P rd g (snd r) s0) /\
+    (writers_can_look D P rd g s0 -> fst r = true).
+  Proof. exact (cond_save_lossless D P empty rd wrc g sh). Qed.
+End C10Cond.
+
+(** seeded fault class c10_4: the store of the auxiliary lump is skipped when all its values are zero, but the reader's
+    default for an absent lump is (9, 0): the values (0, 0) come back as (9, 0) although every graph condition holds
+    (what fails is [codec_ok] of the filled writer); one non-zero value and the same history is lossless. *)
+Theorem c10_conditional_store_refuted :
+  let rd := cx_rd [9; 0] in
+  let s0 := cx_file [0; 0] in
+  let r := save_c (list nat) (list (list nat)) [] rd cx_wrc g_aux std_shape (run (list nat) (list (list nat)) [] rd g_aux std_shape [0] s0) in
+  order_consistent g_aux = true /\
+  denote (list nat) (list (list nat)) rd g_aux s0 0 = Some [[7]; [0; 0]] /\
+  fst r = true /\ raw (snd r) 2 = [7] /\ raw (snd r) 3 = [] /\
+  denote (list nat) (list (list nat)) rd g_aux (snd r) 0 = Some [[7]; [9; 0]] /\
+  rd 0 (wr_fill (list nat) (list (list nat)) [] cx_wrc 0 [[7]; [0; 0]]) <> Some [[7]; [0; 0]] /\
+  raw (snd (save_c (list nat) (list (list nat)) [] rd cx_wrc g_aux std_shape
+              (run (list nat) (list (list nat)) [] rd g_aux std_shape [0] (cx_file [0; 4])))) 3 = [0; 4].
+Proof. exact conditional_store_refuted. Qed.
+
+(** Non-vacuity: with the default (0, 0) the hypotheses hold on a file for which the store IS skipped; the lump comes
+    back empty, the view parses to the same content (the OVERLAY_SYSTEM_LEVELS half of the seeded change). *)
+Theorem c10_conditional_store_hypotheses_satisfiable :
+  let rd := cx_rd [0; 0] in
+  let s0 := cx_file [0; 0] in
+  let r := save_c (list nat) (list (list nat)) [] rd cx_wrc g_aux std_shape (run (list nat) (list (list nat)) [] rd g_aux std_shape [0] s0) in
+  fresh (list nat) (list (list nat)) s0 /\
+  wr_len_ok (list nat) (list (list nat)) rd (wr_fill (list nat) (list (list nat)) [] cx_wrc) g_aux s0 /\
+  codec_ok (list nat) (list (list nat)) rd (wr_fill (list nat) (list (list nat)) [] cx_wrc) g_aux s0 /\
+  cx_wrc 0 [[7]; [0; 0]] = [Some [7]; None] /\ raw (snd r) 3 = [] /\
+  denote (list nat) (list (list nat)) rd g_aux (snd r) 0 = denote (list nat) (list (list nat)) rd g_aux s0 0.
+Proof. exact cond_hyps_satisfiable. Qed.
+
+(** ---------------------------------------------------------------------------------------------------------
+    Writers that store a lump NO view owns (SM/LazyLumpsSide.v): _write_faces_common rewrites FACEIDS, a lump the faces
+    reader reads raw and the property wants back byte-identical.  [seqv] is pointwise equality of states. *)
+Section C10Side.
+  Variables D P : Type.
+  Variable empty : D.
+  Variable rd : nat -> list D -> option P.
+  Variable wr : nat -> P -> list D.
+  Variable wside : nat -> P -> list (nat * D).
+  Variable g : graph.
+  Variable sh : shape.
+
+  (** If, on the values parsed from this file, every store outside the writer's own view goes to an unowned lump and
+      puts there what the file holds ([side_ok]), saving with those stores is saving without them: same completion
+      flag, every lump and every cache entry equal, for all access sequences. *)
+  Theorem c10_store_outside_view_is_invisible : order_consistent g = true -> shape_ok sh = true ->
+    forall s0 : state D P, wr_len_ok D P rd wr g s0 -> side_ok D P rd wside g s0 -> fresh D P s0 -> forall accs,
+    fst (save_s D P empty rd wr wside g sh (run D P empty rd g sh accs s0)) = fst (save D P empty rd wr g sh (run D P empty rd g sh accs s0)) /\
+    seqv D P (snd (save_s D P empty rd wr wside g sh (run D P empty rd g sh accs s0))) (snd (save D P empty rd wr g sh (run D P empty rd g sh accs s0))).
+  Proof. exact (side_save_equiv D P empty rd wr wside g sh). Qed.
+
+  (** ... and therefore lossless under the hypotheses of the main theorem. *)
+  Theorem c10_store_outside_view_lossless : order_consistent g = true -> shape_ok sh = true ->
+    forall s0 : state D P, wr_len_ok D P rd wr g s0 -> side_ok D P rd wside g s0 -> fresh D P s0 -> codec_ok D P rd wr g s0 ->
+    forall accs, let r := save_s D P empty rd wr wside g sh (run D P empty rd g sh accs s0) in
+    (fst r = true -> fresh D P (snd r) /\ same_content D P rd g (snd r) s0) /\
+    (writers_can_look D P rd g s0 -> fst r = true).
+  Proof. exact (side_save_lossless D P empty rd wr wside g sh). Qed.
+End C10Side.
+
+(** [side_ok] is necessary (the defects repaired by fixes b7b21cf and 1c0c7ad): a writer that fabricates ids for a file
+    with an empty FACEIDS lump, or pads a short one with zeros, changes the lump that has no view although every graph
+    condition holds; the writer that stores the ids as read (and nothing when there are none) does not. *)
+Theorem c10_store_outside_view_fabricated_refuted :
+  raw (snd (save_s (list nat) (list nat) nil sx_rd sx_wr (sx_pad nil) g_side std_shape
+              (run (list nat) (list nat) nil sx_rd g_side std_shape (0 :: nil) (sx_file nil)))) 5 = 0 :: 0 :: nil /\
+  raw (snd (save_s (list nat) (list nat) nil sx_rd sx_wr (sx_pad (100 :: nil)) g_side std_shape
+              (run (list nat) (list nat) nil sx_rd g_side std_shape (0 :: nil) (sx_file (100 :: nil))))) 5 = 100 :: 0 :: nil /\
+  raw (snd (save_s (list nat) (list nat) nil sx_rd sx_wr (sx_asread nil) g_side std_shape
+              (run (list nat) (list nat) nil sx_rd g_side std_shape (0 :: nil) (sx_file nil)))) 5 = nil /\
+  ~ side_ok (list nat) (list nat) sx_rd (sx_pad (100 :: nil)) g_side (sx_file (100 :: nil)).
+Proof. exact side_store_fabricated_refuted. Qed.
+
+(** Non-vacuity: all hypotheses hold for the as-read writer on a file with ids; the lump comes back as it was. *)
+Theorem c10_store_outside_view_hypotheses_satisfiable :
+  let s0 := sx_file (100 :: nil) in
+  let r := save_s (list nat) (list nat) nil sx_rd sx_wr (sx_asread (100 :: nil)) g_side std_shape
+             (run (list nat) (list nat) nil sx_rd g_side std_shape (0 :: nil) s0) in
+  order_consistent g_side = true /\ fresh (list nat) (list nat) s0 /\
+  wr_len_ok (list nat) (list nat) sx_rd sx_wr g_side s0 /\ codec_ok (list nat) (list nat) sx_rd sx_wr g_side s0 /\
+  side_ok (list nat) (list nat) sx_rd (sx_asread (100 :: nil)) g_side s0 /\
+  raw (snd r) 5 = 100 :: nil /\ raw (snd r) 2 = 7 :: 8 :: nil.
+Proof. exact side_store_hyps_satisfiable. Qed.
+
+(** ---------------------------------------------------------------------------------------------------------
+    Readers that change, in place, objects of a view they look at (SM/LazyLumpsMut.v): _lmp_read_bmodels takes the
+    "model" key out of the brush entities of the cached ents view, _lmp_write_bmodels puts it back before it
+    serialises.  [getf_m] / [save_m]: the reader of [v] applies [mut v d] to the cached value of every [d] in [mdeps v]
+    once its own parse has succeeded ([early = false]; [early = true]: before it can still raise), the writer of [v]
+    applies [unmut v d] after it looked at its dependencies.  [R None s' s]: same lumps, same cached views, and the
+    cached value of [x] in [s'] is that of [s] changed by the cached view that mutates [x], if any. *)
+Section C10Mut.
+  Variables D P : Type.
+  Variable empty : D.
+  Variable rd : nat -> list D -> option P.
+  Variable wr : nat -> P -> list D.
+  Variable g : graph.
+  Variable sh : shape.
+  Variable mdeps : nat -> list nat.
+  Variable mut unmut : nat -> nat -> P -> P.
+  Variable early : bool.
+
+  (** If the change is made only after the reader's parse succeeded, every mutated view is looked at by the reader and
+      by the writer of the mutating view, no two views change the same view and the writer's undo restores the values
+      parsed from this file, then saving completes exactly when it does without the changes and leaves the same lumps
+      and the same cache, for all access sequences (looks that raise included). *)
+  Theorem c10_hidden_mutation_undone_is_invisible : order_consistent g = true -> shape_ok sh = true -> early = false ->
+    (forall v d, In d (mdeps v) -> In d (v_rdeps (decl g v)) /\ In d (v_wdeps (decl g v))) ->
+    (forall v w x, In x (mdeps v) -> In x (mdeps w) -> v = w) ->
+    forall s0 : state D P,
+    (forall v d p, In d (mdeps v) -> d < nviews g -> rd d (own_data D P g s0 d) = Some p -> unmut v d (mut v d p) = p) ->
+    wr_len_ok D P rd wr g s0 -> fresh D P s0 -> forall accs,
+    fst (save_m D P empty rd wr g sh mdeps mut unmut early (run_m D P empty rd g sh mdeps mut early accs s0))
+    = fst (save D P empty rd wr g sh (run D P empty rd g sh accs s0)) /\
+    (fst (save D P empty rd wr g sh (run D P empty rd g sh accs s0)) = true ->
+     R D P mdeps mut None (snd (save_m D P empty rd wr g sh mdeps mut unmut early (run_m D P empty rd g sh mdeps mut early accs s0)))
+       (snd (save D P empty rd wr g sh (run D P empty rd g sh accs s0)))).
+  Proof. exact (mut_save_equiv D P empty rd wr g sh mdeps mut unmut early). Qed.
+
+  (** ... and therefore lossless under the hypotheses of the main theorem. *)
+  Theorem c10_hidden_mutation_lossless : order_consistent g = true -> shape_ok sh = true -> early = false ->
+    (forall v d, In d (mdeps v) -> In d (v_rdeps (decl g v)) /\ In d (v_wdeps (decl g v))) ->
+    (forall v w x, In x (mdeps v) -> In x (mdeps w) -> v = w) ->
+    forall s0 : state D P,
+    (forall v d p, In d (mdeps v) -> d < nviews g -> rd d (own_data D P g s0 d) = Some p -> unmut v d (mut v d p) = p) ->
+    wr_len_ok D P rd wr g s0 -> fresh D P s0 -> codec_ok D P rd wr g s0 -> forall accs,
+    let r := save_m D P empty rd wr g sh mdeps mut unmut early (run_m D P empty rd g sh mdeps mut early accs s0) in
+    (fst r = true -> fresh D P (snd r) /\ same_content D P rd g (snd r) s0) /\
+    (writers_can_look D P rd g s0 -> fst r = true).
+  Proof. exact (mut_save_lossless D P empty rd wr g sh mdeps mut unmut early). Qed.
+End C10Mut.
+
+(** Non-vacuity: on the example graph (view 0 = bmodels looks at and mutates view 1 = ents) the hypotheses hold and the
+    history "look at bmodels, look at ents, save" is lossless although the user saw the entities without the key. *)
+Theorem c10_hidden_mutation_hypotheses_satisfiable :
+  order_consistent g_mut = true /\
+  (forall v d, In d (mx_mdeps v) -> In d (v_rdeps (decl g_mut v)) /\ In d (v_wdeps (decl g_mut v))) /\
+  (forall v w x, In x (mx_mdeps v) -> In x (mx_mdeps w) -> v = w) /\
+  (forall v d p, In d (mx_mdeps v) -> d < nviews g_mut -> mx_rd false d (own_data (list nat) (list nat) g_mut mx_file d) = Some p ->
+     mx_unmut v d (mx_mut v d p) = p) /\
+  cache (run_m (list nat) (list nat) nil (mx_rd false) g_mut std_shape mx_mdeps mx_mut false (0 :: 1 :: nil) mx_file) 1 = Some (7 :: nil) /\
+  fst (save_m (list nat) (list nat) nil (mx_rd false) mx_wr g_mut std_shape mx_mdeps mx_mut mx_unmut false
+         (run_m (list nat) (list nat) nil (mx_rd false) g_mut std_shape mx_mdeps mx_mut false (0 :: 1 :: nil) mx_file)) = true /\
+  raw (snd (save_m (list nat) (list nat) nil (mx_rd false) mx_wr g_mut std_shape mx_mdeps mx_mut mx_unmut false
+         (run_m (list nat) (list nat) nil (mx_rd false) g_mut std_shape mx_mdeps mx_mut false (0 :: 1 :: nil) mx_file))) 1 = 9 :: 7 :: nil /\
+  raw (snd (save_m (list nat) (list nat) nil (mx_rd false) mx_wr g_mut std_shape mx_mdeps mx_mut mx_unmut false
+         (run_m (list nat) (list nat) nil (mx_rd false) g_mut std_shape mx_mdeps mx_mut false (0 :: 1 :: nil) mx_file))) 0 = 5 :: nil.
+Proof. exact mut_example_lossless. Qed.
+
+(** [early = false] is necessary (the defect repaired by fix 61823d3): the reader of view 0 raises on this file AFTER
+    it changed the entities; the look fails, nothing is cached for view 0, its writer never runs, and save writes the
+    entity lump without the key ([7] instead of [9; 7]).  With [early = false] the same history is lossless. *)
+Theorem c10_hidden_mutation_before_raise_refuted :
+  fst (get_m (list nat) (list nat) nil (mx_rd true) g_mut std_shape mx_mdeps mx_mut true 0 mx_file) = false /\
+  cache (run_m (list nat) (list nat) nil (mx_rd true) g_mut std_shape mx_mdeps mx_mut true (0 :: nil) mx_file) 0 = None /\
+  cache (run_m (list nat) (list nat) nil (mx_rd true) g_mut std_shape mx_mdeps mx_mut true (0 :: nil) mx_file) 1 = Some (7 :: nil) /\
+  fst (save_m (list nat) (list nat) nil (mx_rd true) mx_wr g_mut std_shape mx_mdeps mx_mut mx_unmut true
+         (run_m (list nat) (list nat) nil (mx_rd true) g_mut std_shape mx_mdeps mx_mut true (0 :: nil) mx_file)) = true /\
+  raw (snd (save_m (list nat) (list nat) nil (mx_rd true) mx_wr g_mut std_shape mx_mdeps mx_mut mx_unmut true
+         (run_m (list nat) (list nat) nil (mx_rd true) g_mut std_shape mx_mdeps mx_mut true (0 :: nil) mx_file))) 1 = 7 :: nil /\
+  raw (snd (save_m (list nat) (list nat) nil (mx_rd true) mx_wr g_mut std_shape mx_mdeps mx_mut mx_unmut false
+         (run_m (list nat) (list nat) nil (mx_rd true) g_mut std_shape mx_mdeps mx_mut false (0 :: nil) mx_file))) 1 = 9 :: 7 :: nil.
+Proof. exact mut_before_raise_refuted. Qed.
+
+(** The undo is necessary: a writer that leaves its reader's change in place loses the key. *)
+Theorem c10_hidden_mutation_not_undone_refuted :
+  raw (snd (save_m (list nat) (list nat) nil (mx_rd false) mx_wr g_mut std_shape mx_mdeps mx_mut (fun _ _ p => p) false
+         (run_m (list nat) (list nat) nil (mx_rd false) g_mut std_shape mx_mdeps mx_mut false (0 :: nil) mx_file))) 1 = 7 :: nil.
+Proof. exact mut_not_undone_refuted. Qed.
 
 (** ---------------------------------------------------------------------------------------------------------
     The file container (Fmt/BspContainer.v): header, lump table in either field order, map revision, payload
